@@ -1,23 +1,42 @@
-"""C17 — settings acceptance.  Regenerated from /repo on every run:
+"""C17 — settings acceptance.  Regenerated from /repo on every run.
+
+Everything below is read off a SYMBOLIC EXECUTION of the source (tools/optflow.py: names resolved through assignments /
+constants / imports, helper calls followed, every call / raise / store with its path condition), not off statement shapes or
+variable names — so renamed locals and private methods, code moved into helpers, swapped branches, early returns, De Morgan,
+hoisted constants, loops over a literal table … leave the facts unchanged, while a really different behaviour changes them:
 
 * the typed value universe and the guard language (fixed text; the model `ReplicatModel/Settings.lean` builds on them);
-* `adapterTable` — one row per entry of `adapters._adapters` (name, abstract bases reached through the class hierarchy,
-  keyword-only constructor parameters with their defaults, class-level integer constants, and the `if <cond>: raise …`
-  guards at the head of `__init__`, translated into the guard language);
-* the two settings schemas of `_validate_init_settings` / `_validate_add_key_settings`, the `DEFAULT_*_NAME` constants;
-* `initStages` — the order in which `Repository.init` validates, builds the config, instantiates adapters, makes the key,
-  encrypts its private part and UPLOADS the config (read off the statement order of the function body);
-* `addKeyUploads` — whether add_key/_add_key touch the backend with a mutating call;
-* `keyWriteInit`, `keyWriteAddKey` — how the statement under `if key_output_path is not None:` opens the key file
-  (truncating / via rename / in place / appending / exclusive; helpers of `Repository` are followed), and
-  `keyWriteAfterChecks` — that statement comes after the last statement that can refuse the settings.
+* `adapterTable` — one row per class registered in `adapters._adapters` (name, abstract bases reached through the class
+  hierarchy, keyword-only constructor parameters with their defaults, class-level integer constants, and the guards of
+  `__init__`: every `raise` the constructor (or a helper it calls) can reach, with the condition under which it is reached —
+  minus "the earlier guards did not fire" — translated into the guard language in ONE normal form: negations pushed inwards,
+  literal on the right, the earlier-declared parameter on the left, two bounds on one operand = `.chain`, "outside an interval"
+  = `.neg (.chain …)`);
+* the two settings schemas (the dicts `key → type(s)` a validator hands to a method of `self` together with the object they
+  apply to, wherever those dicts are written), that the nested init schema is applied exactly when `settings['encryption']`
+  is not None, and the `DEFAULT_*_NAME` constants;
+* `initStages` — the order in which `Repository.init` validates, builds the config, instantiates adapters, checks the
+  password, makes the key, encrypts its private part and UPLOADS the config.  The private methods are identified by the ROLE
+  they play in the data flow of `init` (see `InitRun`), the upload by the call that reaches `self.backend.upload|…`, "inside
+  `if props.encrypted`" by the path condition;
+* `kindChecks` — `_make_config` raises exactly when `issubclass(<type from adapters.from_config(**<section S>)>, adapters.<B>)`
+  is false → (S, B);
+* `addKeyUploads` — whether add_key (helpers followed) reaches a mutating backend call;
+* `keyWriteInit`, `keyWriteAddKey` — how the calls that happen exactly when a key output path is given open the key file
+  (truncating / via rename / in place / appending / exclusive), and `keyWriteAfterChecks` — they come after the last step
+  that can refuse the settings.
 
-Anything not recognised raises → extract.py records the failure and emits `settingsSectionOk := false` only, so every
-dependent definition in Settings.lean stops compiling (reported as a broken obligation, never assumed).
+Anything not recognised raises → the tables become `opaque` and `settingsRecognised := false`, so every dependent definition
+in Settings.lean stops compiling (reported as a broken obligation, never assumed).
 """
 import ast
 import json
+import sys
 from fractions import Fraction
+from pathlib import Path
+
+sys.path.insert(0, str(Path(__file__).resolve().parent.parent))
+import optflow as F  # noqa: E402 — tools/optflow.py: symbolic execution of the source under test
 
 PRELUDE = r'''
 /-- typed value universe of a settings entry (what JSON / TOML / `ast.literal_eval` of a CLI flag can produce, minus containers) -/
@@ -121,51 +140,233 @@ def const_eval(node, env):
         raise NotRecognised(f'cannot evaluate {ast.unparse(node)}: {e!r}')
 
 
-def term(node, params, env):
-    if isinstance(node, ast.Name) and node.id in params:
-        return f'.param {lean_str(node.id)}'
-    if isinstance(node, ast.BinOp) and isinstance(node.op, (ast.Add, ast.Sub)):
-        try:
-            k = const_eval(node.right, env)
-        except NotRecognised:
-            k = None
-        if isinstance(k, int) and not isinstance(k, bool):
-            return f'.add ({term(node.left, params, env)}) {lean_int(k if isinstance(node.op, ast.Add) else -k)}'
-    v = const_eval(node, env)
-    if isinstance(v, bool) or not isinstance(v, int):
-        raise NotRecognised(f'guard operand {ast.unparse(node)}')
-    return f'.lit {lean_int(v)}'
+# ------------------------------------------------------------------ guards: path conditions of the raises of a constructor
+FLIP = {'lt': 'ge', 'le': 'gt', 'gt': 'le', 'ge': 'lt', 'eq': 'ne', 'ne': 'eq'}
+MIRROR = {'lt': 'gt', 'le': 'ge', 'gt': 'lt', 'ge': 'le', 'eq': 'eq', 'ne': 'ne'}
+OPN = {'<': 'lt', '<=': 'le', '>': 'gt', '>=': 'ge', '==': 'eq', '!=': 'ne'}
 
 
-def cond(node, params, env):
-    if isinstance(node, ast.UnaryOp) and isinstance(node.op, ast.Not):
-        return f'.neg ({cond(node.operand, params, env)})'
-    if isinstance(node, ast.BoolOp):
-        parts = [cond(v, params, env) for v in node.values]
-        ctor = '.conj' if isinstance(node.op, ast.And) else '.disj'
-        out = parts[-1]
-        for p in reversed(parts[:-1]):
-            out = f'{ctor} ({p}) ({out})'
-        return out
-    if isinstance(node, ast.Call) and ast.unparse(node.func) == 'isinstance' and len(node.args) == 2 and ast.unparse(node.args[1]) == 'int':
-        return f'.isInt ({term(node.args[0], params, env)})'
-    if isinstance(node, ast.Compare):
-        ops, comps = node.ops, node.comparators
-        if len(ops) == 1 and isinstance(ops[0], (ast.In, ast.NotIn)):
-            vals = const_eval(comps[0], env)
-            if not isinstance(vals, (tuple, list, set, frozenset)) or not all(isinstance(x, int) and not isinstance(x, bool) for x in vals):
-                raise NotRecognised(f'membership set {ast.unparse(comps[0])}')
-            if isinstance(vals, (set, frozenset)):
-                vals = sorted(vals)
-            lst = '[' + ', '.join(lean_int(x) for x in vals) + ']'
-            ctor = '.isIn' if isinstance(ops[0], ast.In) else '.notIn'
-            return f'{ctor} ({term(node.left, params, env)}) {lst}'
-        if len(ops) == 1 and type(ops[0]) in CMP:
-            return f'.cmp .{CMP[type(ops[0])]} ({term(node.left, params, env)}) ({term(comps[0], params, env)})'
-        if len(ops) == 2 and type(ops[0]) in CMP and type(ops[1]) in CMP:
-            return (f'.chain ({term(node.left, params, env)}) .{CMP[type(ops[0])]} ({term(comps[0], params, env)}) '
-                    f'.{CMP[type(ops[1])]} ({term(comps[1], params, env)})')
-    raise NotRecognised(f'guard condition {ast.unparse(node)}')
+def gterm(t, params):
+    if t.op == 'p' and t.a[0] in params:
+        return f'.param {lean_str(t.a[0])}'
+    if t.op == 'bin' and t.a[0] in ('+', '-') and F.is_k(t.a[2]) and type(t.a[2].a[0]) is int:
+        k = t.a[2].a[0]
+        return f'.add ({gterm(t.a[1], params)}) {lean_int(k if t.a[0] == "+" else -k)}'
+    if F.is_k(t) and type(t.a[0]) is int:
+        return f'.lit {lean_int(t.a[0])}'
+    raise NotRecognised(f'guard operand {F.show(t)}')
+
+
+def _is_lit(t):
+    return F.is_k(t) and type(t.a[0]) is int
+
+
+def _cmp_parts(t, params):
+    """a comparison term → (op name, left, right) in the canonical orientation: a literal on the right; of two parameters the
+    one declared first on the left (`1 > n` ≡ `n < 1`, `max < min` ≡ `min > max`)"""
+    if t.op != 'cmp' or t.a[0] not in OPN:
+        return None
+    op, a, b = OPN[t.a[0]], t.a[1], t.a[2]
+    swap = False
+    if _is_lit(a) and not _is_lit(b):
+        swap = True
+    elif a.op == 'p' and b.op == 'p' and a.a[0] in params and b.a[0] in params and params.index(a.a[0]) > params.index(b.a[0]):
+        swap = True
+    if swap:
+        op, a, b = MIRROR[op], b, a
+    return op, a, b
+
+
+def _chain_of(parts, params):
+    """`lo <= x <= hi` however it is spelled (`16 <= n <= 64`, `n >= 16 and n <= 64`, `64 >= n and 16 <= n`) → chain text"""
+    if len(parts) != 2 or any(p.op != 'cmp' or p.a[0] not in ('<', '<=', '>', '>=') for p in parts):
+        return None
+    # as written with a shared middle operand (Python's chained comparison)
+    (o1, a1, b1), (o2, a2, b2) = [(OPN[p.a[0]], p.a[1], p.a[2]) for p in parts]
+    if b1 is a2 and not (_is_lit(b1)):
+        return f'.chain ({gterm(a1, params)}) .{o1} ({gterm(b1, params)}) .{o2} ({gterm(b2, params)})'
+    # two bounds on the same operand
+    lows, highs = [], []
+    for p in parts:
+        op, x, lim = _cmp_parts(p, params)
+        if op in ('ge', 'gt'):
+            lows.append((x, 'le' if op == 'ge' else 'lt', lim))
+        elif op in ('le', 'lt'):
+            highs.append((x, op, lim))
+    if len(lows) == 1 and len(highs) == 1 and lows[0][0] is highs[0][0]:
+        return f'.chain ({gterm(lows[0][2], params)}) .{lows[0][1]} ({gterm(lows[0][0], params)}) .{highs[0][1]} ({gterm(highs[0][2], params)})'
+    return None
+
+
+def _nest(ctor, parts):
+    out = parts[-1]
+    for p in reversed(parts[:-1]):
+        out = f'{ctor} ({p}) ({out})'
+    return out
+
+
+def _nnf(t, neg=False):
+    """negation normal form: ('and'|'or', [children]) / ('lit', term, negated) — flattened"""
+    if t.op == 'not':
+        return _nnf(t.a[0], not neg)
+    if t.op in ('and', 'or'):
+        kind = t.op if not neg else ('or' if t.op == 'and' else 'and')
+        kids = []
+        for p in t.a[0]:
+            k = _nnf(p, neg)
+            if k[0] == kind:
+                kids.extend(k[1])
+            else:
+                kids.append(k)
+        return (kind, kids)
+    return ('lit', t, neg)
+
+
+def _as_cmp(lit):
+    """a literal that is an ordering comparison, with its negation absorbed → cmp term, else None"""
+    _, t, neg = lit
+    if t.op != 'cmp' or t.a[0] not in ('<', '<=', '>', '>='):
+        return None
+    op = t.a[0] if not neg else {'<': '>=', '<=': '>', '>': '<=', '>=': '<'}[t.a[0]]
+    return F.mk('cmp', op, t.a[1], t.a[2])
+
+
+def gcond(t, params):
+    """condition term → GCond text.  Negations are pushed through and/or (De Morgan) and into comparisons / memberships;
+    two bounds on one operand become the interval test `.chain lo ≤ x ≤ hi`, and `x < lo or x > hi` its negation — so
+    `not 16 <= n <= 64`, `n < 16 or n > 64` and `not (n >= 16 and n <= 64)` are one and the same guard."""
+    return _emit(_nnf(t), params)
+
+
+def _emit(n, params):
+    if n[0] == 'lit':
+        return _emit_lit(n[1], n[2], params)
+    kind, kids = n
+    out = []
+    used = set()
+    for i, k in enumerate(kids):
+        if i in used:
+            continue
+        done = False
+        if k[0] == 'lit':
+            ci = _as_cmp(k) if kind == 'and' else (_as_cmp(('lit', k[1], not k[2])) if k[1].op == 'cmp' else None)
+            if ci is not None:
+                for j in range(i + 1, len(kids)):
+                    if j in used or kids[j][0] != 'lit':
+                        continue
+                    cj = _as_cmp(kids[j]) if kind == 'and' else (_as_cmp(('lit', kids[j][1], not kids[j][2])) if kids[j][1].op == 'cmp' else None)
+                    if cj is None:
+                        continue
+                    ch = _chain_of([ci, cj], params)
+                    if ch is not None:
+                        out.append(ch if kind == 'and' else f'.neg ({ch})')
+                        used.add(j)
+                        done = True
+                        break
+        if not done:
+            out.append(_emit(k, params))
+    return _nest('.conj' if kind == 'and' else '.disj', out)
+
+
+def _emit_lit(t, neg, params):
+    if t.op == 'call' and F.callee_name(t.a[0]) == 'isinstance' and len(t.a[1]) == 2 and F.callee_name(t.a[1][1]) == 'int' and not t.a[2]:
+        c = f'.isInt ({gterm(t.a[1][0], params)})'
+        return f'.neg ({c})' if neg else c
+    if t.op == 'cmp' and t.a[0] in ('in', 'notin'):
+        vals = F.kval(t.a[2])
+        if not isinstance(vals, (tuple, frozenset)) or not all(type(x) is int for x in vals):
+            raise NotRecognised(f'membership set {F.show(t.a[2])}')
+        if isinstance(vals, frozenset):
+            vals = sorted(vals)
+        lst = '[' + ', '.join(lean_int(x) for x in vals) + ']'
+        is_in = (t.a[0] == 'in') != neg
+        return f'{".isIn" if is_in else ".notIn"} ({gterm(t.a[1], params)}) {lst}'
+    cp = _cmp_parts(t, params)
+    if cp is not None:
+        op, a, b = cp
+        if neg:
+            op = FLIP[op]
+        return f'.cmp .{op} ({gterm(a, params)}) ({gterm(b, params)})'
+    raise NotRecognised(f'guard condition {F.show(t)}')
+
+
+def constructor_guards(repo, cls, init, pnames):
+    """the raises of `__init__` (helpers followed) as `if <cond>: raise <E>` guards in evaluation order.  The condition of a
+    raise is its path condition minus what merely says "the earlier guards did not fire"."""
+    ex = F.Exec(repo)
+    ex.run(init, self_term=F.mk('self', cls))
+    guards = []
+    for ev in ex.events:
+        if ev.kind == 'unknown-stmt':
+            raise NotRecognised(f'{cls.name}.__init__: statement not understood')
+        if ev.kind == 'raise' and any(c[0] in ('loop', 'try', 'handler', 'else', 'finally', 'comp', 'cb') for c in ev.ctx):
+            raise NotRecognised(f'{cls.name}.__init__: raise outside a leading guard')
+    for ev, own in F.own_conditions([e for e in ex.events if e.kind == 'raise']):
+        if not own:
+            raise NotRecognised(f'{cls.name}.__init__: unconditional raise')
+        exc = ev.value
+        nm = F.callee_name(exc.a[0]) if exc.op == 'call' else F.callee_name(exc)
+        if nm is None:
+            raise NotRecognised(f'{cls.name}.__init__: raises {F.show(exc)[:60]}')
+        if nm.startswith('replicat.'):
+            nm = '.'.join(nm.split('.')[-2:])
+        guards.append((gcond(F.AND(own), pnames), nm))
+    return guards
+
+
+def adapter_rows(ctx, repo):
+    mod = repo.module('replicat.utils.adapters')
+    if mod is None:
+        raise NotRecognised('replicat/utils/adapters.py')
+    listed_t = mod.lookup('_adapters')
+    seq = listed_t.a[1] if listed_t is not None and listed_t.op == 'gv' else None
+    items = None
+    if seq is not None and seq.op in ('list', 'tuple'):
+        items = seq.a[0]
+    if not items or any(x.op != 'cls' or x.a[0].module is not mod for x in items):
+        raise NotRecognised('_adapters list')
+    listed = [x.a[0] for x in items]
+    # the registry: adapter name → class, for exactly the listed classes
+    mp = mod.lookup('_adapters_mapping')
+    comp = mp.a[1] if mp is not None and mp.op == 'gv' else None
+    ok = False
+    if comp is not None and comp.op == 'comp' and len(comp.a[2]) == 1:
+        kind, vals, gens = comp.a[0], comp.a[1], comp.a[2]
+        it, el, conds = gens[0]
+        over = it is listed_t or it is seq
+        if kind == 'dict' and over and not conds and vals[0] is F.mk('attr', el, '__name__') and vals[1] is el:
+            ok = True
+    if not ok:
+        raise NotRecognised('_adapters_mapping is not {a.__name__: a for a in _adapters}')
+    rows = []
+    for cls in listed:
+        name = cls.name
+        chain = cls.mro()
+        kinds = [c.name for c in chain if c.name in ABSTRACT]
+        env = {}
+        for c in reversed(chain):
+            env.update(class_consts(c.node))
+        init = cls.find_method('__init__')
+        params, guards = [], []
+        if init is not None:
+            a = init.node.args
+            if a.vararg or a.kwarg or a.posonlyargs or len(a.args) != 1:
+                raise NotRecognised(f'{name}.__init__ signature')
+            for arg, d in zip(a.kwonlyargs, a.kw_defaults):
+                if d is None:
+                    params.append((arg.arg, None))
+                else:
+                    dv = init.module.resolve_expr(d, cls=init.cls)
+                    if not F.is_k(dv):
+                        raise NotRecognised(f'default of {name}.{arg.arg}: {ast.unparse(d)}')
+                    params.append((arg.arg, ('some', dv.a[0])))
+            pnames = [p for p, _ in params]
+            guards = constructor_guards(repo, cls, init, pnames)
+            ctx.fp(f'adapters.{name}.__init__', init.node)
+        consts = [(k, v) for k, v in env.items() if isinstance(v, int) and not isinstance(v, bool)]
+        rows.append((name, kinds, params, consts, guards))
+        ctx.fp(f'adapters.{name}', cls.node)
+    return rows
 
 
 def class_consts(cls):
@@ -179,159 +380,336 @@ def class_consts(cls):
     return env
 
 
-def adapter_rows(ctx, tree):
-    classes = {n.name: n for n in tree.body if isinstance(n, ast.ClassDef)}
-    listed = None
-    for n in tree.body:
-        if isinstance(n, ast.Assign) and ast.unparse(n.targets[0]) == '_adapters' and isinstance(n.value, ast.List):
-            listed = [ast.unparse(e) for e in n.value.elts]
-    if not listed or any(x not in classes for x in listed):
-        raise NotRecognised('_adapters list')
-    mp = [n for n in tree.body if isinstance(n, ast.Assign) and ast.unparse(n.targets[0]) == '_adapters_mapping']
-    if not mp or ast.unparse(mp[0].value) != '{a.__name__: a for a in _adapters}':
-        raise NotRecognised('_adapters_mapping is not {a.__name__: a for a in _adapters}')
-
-    def mro(name, seen=None):   # linearised enough for "first __init__ found" and "set of abstract bases"
-        seen = seen if seen is not None else []
-        if name in classes and name not in seen:
-            seen.append(name)
-            for b in classes[name].bases:
-                mro(ast.unparse(b), seen)
-        return seen
-
-    rows = []
-    for name in listed:
-        chain = mro(name)
-        kinds = [c for c in chain if c in ABSTRACT]
-        env = {}
-        for c in reversed(chain):
-            env.update(class_consts(classes[c]))
-        init = None
-        for c in chain:
-            for st in classes[c].body:
-                if isinstance(st, ast.FunctionDef) and st.name == '__init__':
-                    init = st
-                    break
-            if init is not None:
-                break
-        params, guards = [], []
-        if init is not None:
-            a = init.args
-            if a.vararg or a.kwarg or a.posonlyargs or [x.arg for x in a.args] != ['self']:
-                raise NotRecognised(f'{name}.__init__ signature')
-            for arg, d in zip(a.kwonlyargs, a.kw_defaults):
-                params.append((arg.arg, None if d is None else ('some', const_eval(d, env))))
-            pnames = [p for p, _ in params]
-            for st in init.body:
-                if isinstance(st, ast.Expr) and isinstance(st.value, ast.Constant) and isinstance(st.value.value, str):
-                    continue
-                if isinstance(st, ast.If) and not st.orelse and len(st.body) == 1 and isinstance(st.body[0], ast.Raise):
-                    exc = st.body[0].exc
-                    exc_name = ast.unparse(exc.func) if isinstance(exc, ast.Call) else ast.unparse(exc)
-                    guards.append((cond(st.test, pnames, env), exc_name))
-                    continue
-                if any(isinstance(x, ast.Raise) for x in ast.walk(st)):
-                    raise NotRecognised(f'{name}.__init__: raise outside a leading guard: {ast.unparse(st)[:60]}')
-                # remaining statements: plain assignments / super().__init__() — modelled by hand in Settings.lean, fingerprinted below
-            ctx.fp(f'adapters.{name}.__init__', init)
-        consts = [(k, v) for k, v in env.items() if isinstance(v, int) and not isinstance(v, bool)]
-        rows.append((name, kinds, params, consts, guards))
-        ctx.fp(f'adapters.{name}', classes[name])
-    return rows
+# ------------------------------------------------------------------ Repository: schemas, init, _make_config, add_key
+def _repo_policy(target, ex):
+    """follow closures and everything of repository.py (adapters / utils stay calls)"""
+    return target.nested or target.module.fq == 'replicat.repository'
 
 
-def schema_dicts(ctx, func):
-    """the dict literals passed as first argument of self._validate_settings(...) inside `func`, in order"""
+def _self_calls(ex):
+    return [e for e in ex.events if e.kind == 'call' and e.f.op == 'bound' and e.f.a[1].op == 'self']
+
+
+def _by_result(events):
+    """result term → the OUTERMOST call event that produced it"""
+    out = {}
+    for e in events:
+        if e.result is not None and e.result.op not in ('k', 'p', 'self') and id(e.result) not in out:
+            out[id(e.result)] = e
+    return out
+
+
+class InitRun:
+    """`Repository.init` executed symbolically with every helper of repository.py followed, and the private methods it is
+    built from identified by the ROLE they play (whatever they are called, wherever the call sits):
+
+    * instantiateConfig — its result is `**`-expanded into `RepositoryProps(…)`;      makeConfig — produces that method's argument;
+    * instantiateKey    — its result is `**`-expanded into `dataclasses.replace(props, …)`;   makeKey — produces ITS first argument;
+    * validate          — called with the settings only, exactly when the settings are non-empty, before makeConfig."""
+
+    def __init__(self, repo):
+        self.repo = repo
+        self.fn = repo.func('replicat.repository', 'Repository', 'init')
+        if self.fn is None:
+            raise NotRecognised('Repository.init not found')
+        a = self.fn.node.args
+        if not {'password', 'settings', 'key_output_path'} <= {x.arg for x in a.args + a.kwonlyargs}:
+            raise NotRecognised('init signature')
+        self.ex = F.Exec(repo, inline=_repo_policy)
+        self.ex.run(self.fn)
+        self.SET, self.PW = F.mk('p', 'settings'), F.mk('p', 'password')
+        self.roles = self._roles()
+
+    def _roles(self):
+        ex = self.ex
+        calls = [e for e in ex.events if e.kind == 'call']
+        sc = _self_calls(ex)
+        made = _by_result(sc)
+        roles = {}
+        none = F.Val()
+
+        def producer(t):
+            return made.get(id(F.resolve(t, none))) if t is not None else None
+
+        def expanded_from(e):
+            """the method call whose result mapping is `**`-expanded into the keyword arguments of call `e`"""
+            stars = [v for k, v in e.kwargs if k is None]
+            if len(stars) == 1:
+                return producer(stars[0])
+            if stars or not e.kwargs:
+                return None
+            # a literal dict result was already spread into named keywords by the interpreter: find it by its items
+            for c in sc:
+                r = c.result
+                if c.id < e.id and r is not None and r.op == 'dict' and len(r.a[0]) == len(e.kwargs) \
+                        and all(F.kval(k) == kn and v is kv for (k, v), (kn, kv) in zip(r.a[0], e.kwargs)):
+                    return c
+            return None
+        for e in calls:
+            if e.fq() == 'replicat.repository.RepositoryProps' and 'instantiateConfig' not in roles:
+                p = expanded_from(e)
+                if p is not None:
+                    roles['instantiateConfig'] = p
+            if e.fq() == 'dataclasses.replace' and 'instantiateKey' not in roles and e.args and _is_props(F.resolve(e.args[0], none)):
+                p = expanded_from(e)
+                if p is not None:
+                    roles['instantiateKey'] = p
+        for inst, mk_ in (('instantiateConfig', 'makeConfig'), ('instantiateKey', 'makeKey')):
+            if inst in roles and roles[inst].args:
+                p = producer(roles[inst].args[0])
+                if p is not None:
+                    roles[mk_] = p
+        if 'makeConfig' in roles:
+            at = F.mk('truthy', self.SET)
+            for e in sc:
+                if e.id < roles['makeConfig'].id and list(e.args) == [self.SET] and not e.kwargs and _checks_schemas(self.repo, e.f.a[0]):
+                    if F.truth(e.pc, F.Val().set(at, False)) is False and F.truth(e.pc, F.Val().set(at, True)) is True:
+                        roles['validate'] = e
+                        break
+                    raise NotRecognised('validation is not guarded by `if settings:`')
+        missing = [r for r in ('validate', 'makeConfig', 'instantiateConfig', 'makeKey', 'instantiateKey') if r not in roles]
+        if missing:
+            raise NotRecognised('init: not found: the call that plays the role ' + ', '.join(missing))
+        return roles
+
+    def method(self, role):
+        return self.roles[role].f.a[0]
+
+    def inside_role(self, ev):
+        ids = {e.id for e in self.roles.values()}
+        return any(c[0] == 'call' and c[1] in ids for c in ev.ctx)
+
+
+_INIT_RUNS = {}
+
+
+def init_run(repo):
+    if id(repo) not in _INIT_RUNS:
+        _INIT_RUNS[id(repo)] = InitRun(repo)
+    return _INIT_RUNS[id(repo)]
+
+
+def schema_events(repo, validate_fn):
+    """the (schema, object) pairs a settings validator checks, in evaluation order: calls of a method of `self` whose first
+    argument is a dict `key → type | tuple of types` → [(entries, event)]"""
+    ex = F.Exec(repo, inline=_repo_policy)
+    ex.run(validate_fn)
     out = []
-    for node in ast.walk(func):
-        if isinstance(node, ast.Call) and ast.unparse(node.func) == 'self._validate_settings' and isinstance(node.args[0], ast.Dict):
-            d = []
-            for k, v in zip(node.args[0].keys, node.args[0].values):
-                types = v.elts if isinstance(v, ast.Tuple) else [v]
-                names = []
-                for t in types:
-                    s = ast.unparse(t)
-                    if s == 'collections.abc.Mapping':
-                        names.append('Mapping')
-                    elif s == 'type(None)':
-                        names.append('NoneType')
-                    else:
-                        raise NotRecognised(f'schema type {s}')
-                d.append((ast.literal_eval(k), names))
-            out.append((node.lineno, node.col_offset, d))
-    out.sort()
-    return [d for _, _, d in out]
+    for ev in _self_calls(ex):
+        schema = ev.args[0] if ev.args else None
+        if schema is not None and schema.op == 'gv':
+            schema = schema.a[1]            # a module-level constant: its defining expression
+        if schema is None or schema.op != 'dict' or len(ev.args) != 2 or ev.kwargs:
+            continue
+        d = []
+        for k, v in schema.a[0]:
+            if not isinstance(F.kval(k), str):
+                raise NotRecognised('schema key')
+            types = list(v.a[0]) if v.op == 'tuple' else [v]
+            names = []
+            for t in types:
+                n = F.callee_name(t)
+                if n == 'collections.abc.Mapping':
+                    names.append('Mapping')
+                elif n == 'types.NoneType' or (t.op == 'call' and F.callee_name(t.a[0]) == 'type' and list(t.a[1]) == [F.NONE]):
+                    names.append('NoneType')
+                else:
+                    raise NotRecognised(f'schema type {F.show(t)}')
+            d.append((F.kval(k), names))
+        out.append((d, ev))
+    return out
+
+
+def _checks_schemas(repo, fn):
+    """`fn(self, settings)` validates its argument against at least one schema dict"""
+    if len(fn.node.args.args) != 2:
+        return False
+    try:
+        return bool(schema_events(repo, fn))
+    except (NotRecognised, F.Budget):
+        return True       # it does look at schemas, of a shape we do not understand: the caller will report that
 
 
 def lean_schema(d):
     return '[' + ', '.join(f'({lean_str(k)}, [' + ', '.join(lean_str(t) for t in ts) + '])' for k, ts in d) + ']'
 
 
-def classify_init_stmt(st):
-    """→ stage name or None (irrelevant statement)."""
-    src = ast.unparse(st)
-    calls = [ast.unparse(n.func) for n in ast.walk(st) if isinstance(n, ast.Call)]
-    if 'self._validate_init_settings' in calls:
-        if not (isinstance(st, ast.If) and ast.unparse(st.test) == 'settings'):
-            raise NotRecognised('validation is not guarded by `if settings:`')
-        return 'validate'
-    if 'self._make_config' in calls:
-        return 'makeConfig'
-    if 'self._instantiate_config' in calls:
-        return 'instantiateConfig'
-    if 'self._make_key' in calls:
-        return 'makeKey'
-    if 'self._instantiate_key' in calls:
-        return 'instantiateKey'
-    if 'props.encrypt' in calls:
-        return 'encryptPrivate'
-    if any(c.startswith('self._upload') or c.startswith('self._delete') or c in ('self.backend.upload', 'self.backend.upload_stream', 'self.backend.delete')
-           for c in calls):
-        return 'uploadConfig'      # init has one mutating backend call, the config upload; any mutating call counts as "the backend is touched here"
-    if isinstance(st, ast.If) and ast.unparse(st.test) == 'password is None' and any(isinstance(x, ast.Raise) for x in ast.walk(st)):
-        return 'passwordCheck'
-    if isinstance(st, ast.If) and 'key_output_path' in ast.unparse(st.test):
-        return None      # writes / prints the key file: no backend access, cannot fail in the typed universe
-    if any(isinstance(x, ast.Raise) for x in ast.walk(st)):
-        raise NotRecognised(f'unmodelled raise in init: {src[:80]}')
+def _get_key(t, of):
+    """`of.get('k'[, d])` / `of['k']` → 'k'"""
+    if t.op == 'call' and F.split_method(t.a[0]) is not None and F.split_method(t.a[0])[1] == 'get' and F.split_method(t.a[0])[0] is of \
+            and t.a[1] and isinstance(F.kval(t.a[1][0]), str):
+        return F.kval(t.a[1][0])
+    if t.op == 'item' and t.a[0] is of and isinstance(F.kval(t.a[1]), str):
+        return F.kval(t.a[1])
     return None
 
 
-def init_stages(ctx, init):
-    stages = []
+def _is_props(t):
+    """a RepositoryProps value (constructed, `dataclasses.replace`d from one, the repository's own, or handed in)"""
+    if t.op == 'phi':
+        return _is_props(t.a[1]) and _is_props(t.a[2])
+    if t.op == 'call':
+        n = F.callee_name(t.a[0])
+        if n == 'replicat.repository.RepositoryProps':
+            return True
+        if n == 'dataclasses.replace' and t.a[1]:
+            return _is_props(t.a[1][0])
+    if t.op == 'attr' and t.a[1] == 'props' and t.a[0].op == 'self':
+        return True
+    return t.op == 'p'          # handed in by the caller (`_add_key(…, props=…)`)
 
-    def walk(body, enc):
-        for st in body:
-            if isinstance(st, ast.If) and ast.unparse(st.test) == 'props.encrypted':
-                walk(st.body, True)
-                for x in st.orelse:
-                    if classify_init_stmt(x) is not None:
-                        raise NotRecognised('modelled statement in the unencrypted branch')
-                continue
-            k = classify_init_stmt(st)
-            if k is not None:
-                stages.append((k, enc))
-    walk(init.body, False)
+
+MUTATING = ('upload', 'upload_stream', 'delete')
+RUNNERS = ('run_in_executor', 'submit', 'to_thread', 'partial', 'run_sync', 'call_soon', 'call_soon_threadsafe')
+
+
+def _backend_method(t):
+    sm = F.split_method(t) if isinstance(t, F.T) and t.op in ('attr', 'bound') else None
+    if sm is not None and sm[1] in MUTATING and sm[0].op == 'attr' and sm[0].a[1] == 'backend' and sm[0].a[0].op == 'self':
+        return sm[1]
+    return None
+
+
+def _touches_backend(ev):
+    """a call that changes what is stored in the backend: `self.backend.upload|upload_stream|delete(…)`, direct or handed
+    to an executor (`run_in_executor(executor, self.backend.upload, …)`)"""
+    if ev.kind != 'call':
+        return False
+    if _backend_method(ev.f) is not None:
+        return True
+    sm = F.split_method(ev.f)
+    runner = sm[1] if sm is not None else (F.callee_name(ev.f) or '').split('.')[-1]
+    return not ev.inlined and runner in RUNNERS and any(_backend_method(a) is not None for a in ev.args)
+
+
+def _encrypted_atoms(pc):
+    return [a for a in F.atoms(pc) if a.op == 'truthy' and a.a[0].op == 'attr' and a.a[0].a[1] == 'encrypted' and _is_props(a.a[0].a[0])]
+
+
+def _top(ev):
+    """the call at depth 0 an event belongs to (its own id for an event of the function body itself)"""
+    for c in ev.ctx:
+        if c[0] == 'call':
+            return c[1]
+    return ev.id
+
+
+def init_stages(run):
+    ex = run.ex
+    role_of = {e.id: r for r, e in run.roles.items()}
+    stages, seen = [], set()
+    for ev in ex.events:
+        if run.inside_role(ev):
+            continue            # what the role methods do inside is modelled by hand (Settings.lean), fingerprinted
+        k = None
+        depth = sum(1 for c in ev.ctx if c[0] == 'call')
+        if ev.id in role_of:
+            k = role_of[ev.id]
+        elif ev.kind == 'call' and F.method_call(ev, 'encrypt') is not None and _is_props(F.resolve(F.method_call(ev, 'encrypt'), F.Val())):
+            k = 'encryptPrivate'
+        elif _touches_backend(ev):
+            k = 'uploadConfig'      # init has one mutating backend call, the config upload; any mutating call counts as "the backend is touched here"
+        elif ev.kind == 'raise':
+            at = F.mk('isnone', run.PW)
+            enc = _encrypted_atoms(ev.pc)
+            v_none, v_some = F.Val().set(at, True), F.Val().set(at, False)
+            for e in enc:
+                v_none.set(e, True)
+                v_some.set(e, True)
+            if F.truth(ev.pc, v_some) is False and F.truth(ev.pc, v_none) is True:
+                k = 'passwordCheck'
+            elif depth == 0:
+                raise NotRecognised(f'unmodelled raise in init: {F.show(ev.value)[:80]}')
+        elif ev.kind == 'unknown-stmt' and depth == 0:
+            raise NotRecognised('statement of init not understood')
+        if k is None:
+            continue
+        if (k, _top(ev)) in seen:
+            continue            # e.g. the coroutine / executor alternatives of one and the same backend call
+        seen.add((k, _top(ev)))
+        enc = _encrypted_atoms(ev.pc)
+        only_enc = False
+        if enc:
+            v_off, v_on = F.Val(), F.Val()
+            for e in enc:
+                v_off.set(e, False)
+                v_on.set(e, True)
+            if F.truth(ev.pc, v_on) is False:
+                raise NotRecognised('modelled statement in the unencrypted branch')
+            only_enc = F.truth(ev.pc, v_off) is False
+        stages.append((k, only_enc))
     return stages
 
 
-def kind_checks(make_config):
-    """`if not issubclass(<slot>_type, adapters.<Base>): raise …` inside _make_config → [(slot, Base)] (none today)"""
-    slots = {'hasher_type': 'hashing', 'chunker_type': 'chunking', 'cipher_type': 'cipher'}
-    out = []
-    for n in ast.walk(make_config):
-        if isinstance(n, ast.Call) and ast.unparse(n.func) == 'issubclass':
-            ok = False
-            for st in ast.walk(make_config):
-                if (isinstance(st, ast.If) and isinstance(st.test, ast.UnaryOp) and isinstance(st.test.op, ast.Not) and st.test.operand is n
-                        and len(st.body) == 1 and isinstance(st.body[0], ast.Raise) and not st.orelse):
-                    var, base = ast.unparse(n.args[0]), ast.unparse(n.args[1])
-                    if var in slots and base.startswith('adapters.') and base[len('adapters.'):] in ABSTRACT:
-                        out.append((slots[var], base[len('adapters.'):]))
-                        ok = True
-            if not ok:
-                raise NotRecognised(f'issubclass check of unknown shape in _make_config: {ast.unparse(n)}')
+def kind_checks(repo, make_config):
+    """`_make_config` refuses an adapter of the wrong kind: a raise that happens exactly when
+    `issubclass(<type from adapters.from_config(**<settings of slot S>)>, adapters.<Base>)` is false → [(S, Base)]"""
+    ex = F.Exec(repo, inline=_repo_policy)
+    ex.run(make_config)
+    out, used = [], set()
+    for ev, own in F.own_conditions([e for e in ex.events if e.kind == 'raise']):
+        own = tuple(own)
+        for at in F.atoms(own):
+            t = at.a[0] if at.op == 'truthy' else None
+            if t is None or not (t.op == 'call' and F.callee_name(t.a[0]) == 'issubclass' and len(t.a[1]) == 2 and not t.a[2]):
+                continue
+            if not (F.truth(own, F.Val().set(at, True)) is False and F.truth(own, F.Val().set(at, False)) is not False):
+                continue
+            ty, base = t.a[1]
+            # the class: first component of adapters.from_config(**S)
+            src = ty.a[0] if ty.op == 'item' and F.is_k(ty.a[1], 0) else None
+            if src is None or not (src.op == 'call' and F.callee_name(src.a[0]) == 'replicat.utils.adapters.from_config' and not src.a[1]):
+                continue
+            maps = [v for k, v in src.a[2] if k is None]
+            if len(maps) != 1:
+                continue
+            slot = _slot_of(maps[0])
+            bn = F.callee_name(base)
+            if slot is None or bn is None or not bn.startswith('replicat.utils.adapters.') or bn.split('.')[-1] not in ABSTRACT:
+                continue
+            out.append((slot, bn.split('.')[-1]))
+            used.add(id(t))
+    for ev in ex.events:
+        if ev.kind == 'call' and F.callee_name(ev.f) == 'issubclass' and id(ev.result) not in used:
+            raise NotRecognised(f'issubclass check of unknown shape in _make_config: {F.show(ev.result)[:100]}')
     return out
+
+
+def _slot_of(m):
+    """the settings section a mapping was taken from: `<…>.get('hashing', {})`, `<…>['cipher']` → its key"""
+    if m.op == 'phi':
+        a, b = _slot_of(m.a[1]), _slot_of(m.a[2])
+        return a if a == b else None
+    if m.op == 'merge':
+        return _slot_of(m.a[0])
+    if m.op == 'call' and F.split_method(m.a[0]) is not None and F.split_method(m.a[0])[1] in ('get', 'pop', 'setdefault') and m.a[1] \
+            and isinstance(F.kval(m.a[1][0]), str):
+        return F.kval(m.a[1][0])
+    if m.op == 'item' and isinstance(F.kval(m.a[1]), str):
+        return F.kval(m.a[1])
+    return None
+
+
+class AddKeyRun:
+    """`Repository.add_key` with every helper followed; its settings validator by role (called with the settings only, exactly
+    when they are non-empty)"""
+
+    def __init__(self, repo):
+        self.fn = repo.func('replicat.repository', 'Repository', 'add_key')
+        if self.fn is None:
+            raise NotRecognised('Repository.add_key not found')
+        self.ex = F.Exec(repo, inline=_repo_policy)
+        self.ex.run(self.fn)
+        SET = F.mk('p', 'settings')
+        at = F.mk('truthy', SET)
+        self.validate = None
+        for e in _self_calls(self.ex):
+            if list(e.args) == [SET] and not e.kwargs and _checks_schemas(repo, e.f.a[0]) \
+                    and F.truth(e.pc, F.Val().set(at, False)) is False and F.truth(e.pc, F.Val().set(at, True)) is True:
+                self.validate = e
+                break
+        if self.validate is None:
+            raise NotRecognised('add_key: settings validation not found')
 
 
 FALLBACK = [
@@ -380,52 +758,50 @@ def section(ctx):
 
 
 def body(ctx, emit):
+    repo = F.shared_repo(ctx.REPO)
     asrc = (ctx.REPO / 'replicat' / 'utils' / 'adapters.py').read_text()
     atree = ast.parse(asrc)
-    rows = adapter_rows(ctx, atree)
-    rsrc = (ctx.REPO / 'replicat' / 'repository.py').read_text()
-    rtree = ast.parse(rsrc)
-    vinit = ctx.find_func(rtree, 'Repository', '_validate_init_settings')
-    vadd = ctx.find_func(rtree, 'Repository', '_validate_add_key_settings')
-    init = ctx.find_func(rtree, 'Repository', 'init')
-    add_key = ctx.find_func(rtree, 'Repository', 'add_key')
-    add_key_inner = ctx.find_func(rtree, 'Repository', '_add_key')
-    for nm, f in [('_validate_settings', ctx.find_func(rtree, 'Repository', '_validate_settings')), ('_validate_init_settings', vinit),
-                  ('_validate_add_key_settings', vadd), ('add_key', add_key), ('_add_key', add_key_inner),
-                  ('_make_config', ctx.find_func(rtree, 'Repository', '_make_config')),
-                  ('_instantiate_config', ctx.find_func(rtree, 'Repository', '_instantiate_config')),
-                  ('_make_key', ctx.find_func(rtree, 'Repository', '_make_key')),
-                  ('_instantiate_key', ctx.find_func(rtree, 'Repository', '_instantiate_key')), ('init', init)]:
-        if f is None:
-            raise NotRecognised(f'Repository.{nm} not found')
-        ctx.fp(f'repository.{nm}', f)
+    rows = adapter_rows(ctx, repo)
+    run = init_run(repo)
+    add = AddKeyRun(repo)
+    # fingerprints of the functions the hand-written model mirrors (under the names they have today)
+    for nm, f in [('init', run.fn), ('add_key', add.fn), ('_validate_init_settings', run.method('validate')),
+                  ('_validate_add_key_settings', add.validate.f.a[0]), ('_make_config', run.method('makeConfig')),
+                  ('_instantiate_config', run.method('instantiateConfig')), ('_make_key', run.method('makeKey')),
+                  ('_instantiate_key', run.method('instantiateKey'))]:
+        ctx.fp(f'repository.{nm}', f.node)
+    for nm in ('_validate_settings', '_add_key'):
+        f = repo.func('replicat.repository', 'Repository', nm)
+        if f is not None:
+            ctx.fp(f'repository.{nm}', f.node)
     ctx.fp('adapters.from_config', ctx.find_func(atree, 'from_config'))
-    si = schema_dicts(ctx, vinit)
-    sa = schema_dicts(ctx, vadd)
+    vinit = run.method('validate')
+    si, sa = schema_events(repo, vinit), schema_events(repo, add.validate.f.a[0])
     if len(si) != 2 or len(sa) != 2:
         raise NotRecognised('expected two schema dicts in each _validate_*_settings')
-    # the nested init schema is applied to settings.get('encryption') only when that is not None
-    nested_ok = any(isinstance(n, ast.If) and ast.unparse(n.test) == "(encryption_settings := settings.get('encryption')) is not None"
-                    for n in ast.walk(vinit))
+    # the nested init schema is applied to settings.get('encryption') exactly when that is not None
+    SET = F.mk('p', vinit.node.args.args[1].arg)
+    ev2 = si[1][1]
+    obj = ev2.args[1]
+    nested_ok = False
+    if _get_key(obj, SET) == 'encryption':
+        at = F.mk('isnone', obj)
+        nested_ok = F.truth(ev2.pc, F.Val().set(at, True)) is False and F.truth(ev2.pc, F.Val().set(at, False)) is True \
+            and F.truth(si[0][1].pc, F.Val()) is True and si[0][1].args[1] is SET
     if not nested_ok:
         raise NotRecognised('_validate_init_settings: nested validation shape')
-    repo_cls = ctx.find_func(rtree, 'Repository')
+    si, sa = [d for d, _ in si], [d for d, _ in sa]
+    repo_cls = repo.cls('replicat.repository', 'Repository')
     defaults = {}
-    for st in repo_cls.body:
-        if isinstance(st, ast.Assign) and isinstance(st.targets[0], ast.Name) and st.targets[0].id.startswith('DEFAULT_') and st.targets[0].id.endswith('_NAME'):
-            defaults[st.targets[0].id] = ast.literal_eval(st.value)
     need = ['DEFAULT_CHUNKER_NAME', 'DEFAULT_CIPHER_NAME', 'DEFAULT_HASHER_NAME', 'DEFAULT_MAC_NAME', 'DEFAULT_USER_KDF_NAME', 'DEFAULT_SHARED_KDF_NAME']
+    for k in need:
+        c = repo_cls.find_const(k) if repo_cls is not None else None
+        defaults[k] = F.kval(c) if c is not None else None
     if any(not isinstance(defaults.get(k), str) for k in need):
         raise NotRecognised('DEFAULT_*_NAME constants')
-    stages = init_stages(ctx, init)
-    kind_chk = kind_checks(ctx.find_func(rtree, 'Repository', '_make_config'))
-    uploads = False
-    for f in (add_key, add_key_inner):
-        for n in ast.walk(f):
-            if isinstance(n, ast.Call):
-                c = ast.unparse(n.func)
-                if c.startswith('self._upload') or c.startswith('self._delete') or c in ('self.backend.upload', 'self.backend.upload_stream', 'self.backend.delete'):
-                    uploads = True
+    stages = init_stages(run)
+    kind_chk = kind_checks(repo, run.method('makeConfig'))
+    uploads = any(_touches_backend(ev) for ev in add.ex.events)
 
     # ---- emit (only after everything was recognised)
     emit('def adapterTable : List AdapterRow := [')
@@ -453,17 +829,6 @@ KEYWRITE_FALLBACK = ['opaque keyWriteInit : WriteMode', 'opaque keyWriteAddKey :
 OPEN_FLAGS = {'O_WRONLY', 'O_RDWR', 'O_CREAT', 'O_TRUNC', 'O_APPEND', 'O_EXCL', 'O_CLOEXEC', 'O_NOFOLLOW', 'O_BINARY', 'O_SYNC', 'O_DSYNC', 'O_NOCTTY'}
 
 
-def _flag_names(node):
-    """`os.O_WRONLY | os.O_CREAT | …` → set of names"""
-    if isinstance(node, ast.BinOp) and isinstance(node.op, ast.BitOr):
-        return _flag_names(node.left) | _flag_names(node.right)
-    s = ast.unparse(node)
-    nm = s[len('os.'):] if s.startswith('os.') else s
-    if nm not in OPEN_FLAGS:
-        raise NotRecognised(f'open flag {s}')
-    return {nm}
-
-
 def _mode_of_string(mode, on_descriptor=False):
     if not isinstance(mode, str):
         raise NotRecognised(f'open mode {mode!r}')
@@ -478,22 +843,36 @@ def _mode_of_string(mode, on_descriptor=False):
     raise NotRecognised(f'key file opened with mode {mode!r}')
 
 
-def _open_mode_arg(call, pos):
-    for kw in call.keywords:
-        if kw.arg == 'mode':
-            return ast.literal_eval(kw.value)
-    if len(call.args) > pos:
-        return ast.literal_eval(call.args[pos])
-    return 'r'
+def _flag_names_t(t):
+    """`os.O_WRONLY | os.O_CREAT | …` as a term → set of names"""
+    if t.op == 'bin' and t.a[0] == '|':
+        return _flag_names_t(t.a[1]) | _flag_names_t(t.a[2])
+    n = F.callee_name(t)
+    nm = n[len('os.'):] if n is not None and n.startswith('os.') else n
+    if nm not in OPEN_FLAGS:
+        raise NotRecognised(f'open flag {F.show(t)}')
+    return {nm}
 
 
-def write_mode_of(stmts, cls, depth=0):
-    """How a list of statements that stores the key leaves the file at the output path (see `WriteMode`).  Looks at every
-    call below the statements: rename onto the path, os.open flags, open()/Path.open() mode strings, truncate calls,
-    Path.write_bytes / write_text; calls of other methods of the class / functions of the module are followed (two levels)."""
-    calls = [n for st in stmts for n in ast.walk(st) if isinstance(n, ast.Call)]
-    names = [ast.unparse(c.func) for c in calls]
-    if any(n in ('os.replace', 'os.rename', 'shutil.move') or n.endswith('.replace') and len(c.args) == 1 and not c.keywords or n.endswith('.rename')
+def _mode_arg(ev, pos):
+    m = ev.arg(pos, 'mode')
+    if m is None:
+        return 'r'
+    if not isinstance(F.kval(m), str):
+        raise NotRecognised(f'open mode {F.show(m)}')
+    return F.kval(m)
+
+
+def write_mode_of(calls):
+    """How the calls that store the key leave the file at the output path (see `WriteMode`): rename onto the path, os.open
+    flags, open()/Path.open() mode strings, truncate calls, Path.write_bytes / write_text.  `calls` = every call that happens
+    when a key output path is given (helpers already followed by the symbolic execution)."""
+    names = []
+    for c in calls:
+        n = F.callee_name(c.f)
+        sm = F.split_method(c.f)
+        names.append(n if n is not None and c.f.op != 'bound' else ('.' + sm[1] if sm is not None else '?'))
+    if any(n in ('os.replace', 'os.rename', 'shutil.move') or n.endswith('.replace') and len(c.args) == 1 and not c.kwargs or n.endswith('.rename')
            for n, c in zip(names, calls)):
         return 'replace'
     truncates = any(n == 'os.ftruncate' or n == 'os.truncate' or n.endswith('.truncate') for n in names)
@@ -502,24 +881,18 @@ def write_mode_of(stmts, cls, depth=0):
         if n == 'os.open':
             if len(c.args) < 2:
                 raise NotRecognised('os.open without flags')
-            fl = _flag_names(c.args[1])
+            fl = _flag_names_t(c.args[1])
             if not (fl & {'O_WRONLY', 'O_RDWR'}):
                 raise NotRecognised('key file descriptor is not opened for writing')
             found.append('exclusive' if 'O_EXCL' in fl else 'append' if 'O_APPEND' in fl else 'truncate' if 'O_TRUNC' in fl else 'inPlace')
         elif n in ('open', 'io.open', 'os.fdopen'):
-            m = _mode_of_string(_open_mode_arg(c, 1), on_descriptor=(n == 'os.fdopen' or 'os.open' in names))
+            m = _mode_of_string(_mode_arg(c, 1), on_descriptor=(n == 'os.fdopen' or 'os.open' in names))
             if m is not None:
                 found.append(m)
         elif n.endswith('.open') and n != 'os.open':
-            found.append(_mode_of_string(_open_mode_arg(c, 0)))
+            found.append(_mode_of_string(_mode_arg(c, 0)))
         elif n.endswith('.write_bytes') or n.endswith('.write_text'):
             found.append('truncate')
-    if not found and depth < 2 and cls is not None:
-        # a helper: another method of the class (`self.name(…)`) or a function of the module (`name(…)`)
-        defs = {'self.' + st.name: st for st in cls.body if isinstance(st, (ast.FunctionDef, ast.AsyncFunctionDef))}
-        defs.update({st.name: st for st in getattr(cls, 'module_body', []) if isinstance(st, (ast.FunctionDef, ast.AsyncFunctionDef))})
-        helpers = [n for n in names if n in defs and n not in ('self.serialize', 'self.display_status')]
-        found = [write_mode_of(defs[n].body, cls, depth + 1) for n in helpers]
     found = sorted(set(found))
     if len(found) != 1:
         raise NotRecognised(f'key-file statement: expected one way of opening the file, found {found}')
@@ -529,35 +902,41 @@ def write_mode_of(stmts, cls, depth=0):
     return mode
 
 
-def key_write_stmt(func):
-    """the `if key_output_path is not None:` statement of `func` and the statements of the function body before it"""
-    hits = [n for n in ast.walk(func) if isinstance(n, ast.If) and ast.unparse(n.test) == 'key_output_path is not None']
-    if len(hits) != 1:
-        raise NotRecognised(f'{func.name}: {len(hits)} `if key_output_path is not None:` statements')
-    return hits[0]
-
-
-def _comes_after_checks(func, write_if):
-    """the key-file statement follows (in source order, same or enclosing block) the encryption of the private section — the
-    last statement of init / _add_key that depends on the settings and can raise"""
-    enc = [n for n in ast.walk(func) if isinstance(n, ast.Call) and ast.unparse(n.func) == 'props.encrypt']
-    mk = [n for n in ast.walk(func) if isinstance(n, ast.Call) and ast.unparse(n.func) in ('self._make_key', 'self._instantiate_key')]
-    if not enc or not mk:
+def key_write_calls(repo, func, key_methods):
+    """the calls of `func` (helpers followed) that happen exactly when a key output path was given (`key_output_path is not
+    None`, in any spelling), and whether the writing comes after the last step that can refuse the settings (key
+    construction — the methods that play makeKey / instantiateKey in init — and the encryption of the private part)"""
+    a = func.node.args
+    if 'key_output_path' not in [x.arg for x in a.args + a.kwonlyargs]:
+        raise NotRecognised(f'{func.name}: no key_output_path parameter')
+    ex = F.Exec(repo, inline=_repo_policy)
+    ex.run(func)
+    at = F.mk('isnone', F.mk('p', 'key_output_path'))
+    calls = [e for e in ex.events if e.kind == 'call' and F.truth(e.pc, F.Val().set(at, True)) is False
+             and F.truth(e.pc, F.Val().set(at, False)) is not False]
+    if not calls:
+        raise NotRecognised(f'{func.name}: nothing happens when a key output path is given')
+    enc = [e for e in ex.events if e.kind == 'call' and F.method_call(e, 'encrypt') is not None and e.f.op != 'bound'
+           and _is_props(F.resolve(F.method_call(e, 'encrypt'), F.Val()))]
+    mk_ = [e for e in ex.events if e.kind == 'call' and e.f.op == 'bound' and e.f.a[0] in key_methods]
+    if not enc or not mk_:
         raise NotRecognised(f'{func.name}: key construction calls not found')
-    last = max((n.end_lineno, n.end_col_offset) for n in enc + mk)
-    return (write_if.lineno, write_if.col_offset) > last
+    writers = [e for e in calls if not (F.callee_name(e.f) or '').startswith(('pathlib.', 'print', 'json.'))]
+    last_check = max(e.id for e in enc + mk_)
+    # (the events INSIDE the key construction methods belong to them)
+    inner = {e.id for e in mk_}
+    last_check = max([last_check] + [e.id for e in ex.events if any(c[0] == 'call' and c[1] in inner for c in e.ctx)])
+    after = min(e.id for e in writers) > last_check if writers else False
+    return calls, after
 
 
 def key_write_facts(ctx):
-    rtree = ast.parse((ctx.REPO / 'replicat' / 'repository.py').read_text())
-    cls = ctx.find_func(rtree, 'Repository')
-    init = ctx.find_func(rtree, 'Repository', 'init')
-    inner = ctx.find_func(rtree, 'Repository', '_add_key')
-    if cls is None or init is None or inner is None:
-        raise NotRecognised('Repository.init / _add_key not found')
-    cls.module_body = rtree.body
-    wi, wa = key_write_stmt(init), key_write_stmt(inner)
-    ctx.fp('repository.init.key_write', wi)
-    ctx.fp('repository._add_key.key_write', wa)
-    return {'init': write_mode_of(wi.body, cls), 'add_key': write_mode_of(wa.body, cls),
-            'after_checks': _comes_after_checks(init, wi) and _comes_after_checks(inner, wa)}
+    repo = F.shared_repo(ctx.REPO)
+    run = init_run(repo)
+    key_methods = {run.method('makeKey'), run.method('instantiateKey')}
+    add = repo.func('replicat.repository', 'Repository', 'add_key')
+    if add is None:
+        raise NotRecognised('Repository.add_key not found')
+    ci, ai = key_write_calls(repo, run.fn, key_methods)
+    ca, aa = key_write_calls(repo, add, key_methods)
+    return {'init': write_mode_of(ci), 'add_key': write_mode_of(ca), 'after_checks': ai and aa}
